@@ -13,6 +13,8 @@ Placements
     package     p/__init__.py + p/__init__.pyi                        merged module p       (_load_package)
     stubs-pkg   sp0/p/{__init__.py, m.py}, sp1/p-stubs/{__init__.pyi, m.pyi}, find_stubs_package=True   -> p.m
     top-module  p.py + p.pyi in a search path                         merged module p       (_load_package)
+Every package placement additionally holds the same pair two levels down (p/sub/deep.py + deep.pyi; for stubs-pkg
+p-stubs/sub/__init__.pyi + p-stubs/sub/deep.pyi): its merged module p.sub.deep is judged the same way ("nested:" kinds).
 
 Clauses (Fail.clause)
     total            loading/merging raised (any exception)
@@ -91,25 +93,58 @@ def layout_for(case) -> tuple[dict, dict]:
     r = gp.render_module(pair["R"], "R", TOP)
     s = gp.render_module(pair["S"], "S", TOP)
     other = gp.render_other()
+    # every package placement also holds the same pair two levels down: p/sub/deep.py + deep.pyi (for the -stubs
+    # placement the stubs are p-stubs/sub/deep.pyi below a stub-only sub-package p-stubs/sub/__init__.pyi)
+    deep = {"__init__.py": "", "deep.py": r, "deep.pyi": s}
     if placement == "sibling":
-        paths = [{TOP: {"__init__.py": "", "m.py": r, "m.pyi": s, f"{gp.OTHER}.py": other}}]
-        return {"paths": paths, "extra": None, "pth": None}, {"target": "m"}
+        paths = [{TOP: {"__init__.py": "", "m.py": r, "m.pyi": s, f"{gp.OTHER}.py": other, "sub": dict(deep)}}]
+        return {"paths": paths, "extra": None, "pth": None}, {"target": "m", "deep": True}
     if placement == "subpackage":
-        paths = [{TOP: {"__init__.py": "", "s": {"__init__.py": r, "__init__.pyi": s}, f"{gp.OTHER}.py": other}}]
-        return {"paths": paths, "extra": None, "pth": None}, {"target": "s"}
+        paths = [{TOP: {"__init__.py": "", "s": {"__init__.py": r, "__init__.pyi": s}, f"{gp.OTHER}.py": other, "sub": dict(deep)}}]
+        return {"paths": paths, "extra": None, "pth": None}, {"target": "s", "deep": True}
     if placement == "package":
-        paths = [{TOP: {"__init__.py": r, "__init__.pyi": s, f"{gp.OTHER}.py": other}}]
-        return {"paths": paths, "extra": None, "pth": None}, {"target": None}
+        paths = [{TOP: {"__init__.py": r, "__init__.pyi": s, f"{gp.OTHER}.py": other, "sub": dict(deep)}}]
+        return {"paths": paths, "extra": None, "pth": None}, {"target": None, "deep": True}
     if placement == "stubs-pkg":
         paths = [
-            {TOP: {"__init__.py": "", "m.py": r, f"{gp.OTHER}.py": other}},
-            {f"{TOP}-stubs": {"__init__.pyi": "", "m.pyi": s}},
+            {TOP: {"__init__.py": "", "m.py": r, f"{gp.OTHER}.py": other, "sub": {"__init__.py": "", "deep.py": r}}},
+            {f"{TOP}-stubs": {"__init__.pyi": "", "m.pyi": s, "sub": {"__init__.pyi": "", "deep.pyi": s}}},
         ]
-        return {"paths": paths, "extra": None, "pth": None}, {"target": "m", "find_stubs_package": True}
+        return {"paths": paths, "extra": None, "pth": None}, {"target": "m", "find_stubs_package": True, "deep": True}
     if placement == "top-module":
         paths = [{f"{TOP}.py": r, f"{TOP}.pyi": s}]
         return {"paths": paths, "extra": None, "pth": None}, {"target": None}
     raise HarnessError(f"unknown placement {placement}")
+
+
+MISSING = {"doc": None, "members": {}, "missing": True}
+
+
+def _observe(top, target: str | None, with_deep: bool) -> dict:
+    """Observation of the merged module `target` below the loaded top module, plus (package placements) of the
+    nested pair p.sub.deep under the key "deep"."""
+
+    def find(mod, dotted):
+        for name in dotted.split("."):
+            if mod.is_alias or name not in mod.members:
+                return None
+            mod = mod.members[name]
+        return None if mod.is_alias or mod.kind.value != "module" else mod
+
+    mod = top if target is None else find(top, target)
+    if mod is None or mod.is_alias or mod.kind.value != "module":
+        obs = dict(MISSING)
+    else:
+        obs = gp.observe(mod, skip=(gp.OTHER, "m", "s", "sub") if target is None else ())
+        obs["file"] = _suffix(mod)
+    if with_deep:
+        d = find(top, "sub.deep")
+        if d is None:
+            obs["deep"] = dict(MISSING)
+        else:
+            obs["deep"] = gp.observe(d)
+            obs["deep"]["file"] = _suffix(d)
+    return obs
 
 
 def load_merged(paths: list[Path], opts: dict, order) -> dict:
@@ -125,16 +160,7 @@ def load_merged(paths: list[Path], opts: dict, order) -> dict:
             find_stubs_package=bool(opts.get("find_stubs_package")),
             what=f"griffe.load({TOP!r}) with stubs, discovery order {order!r}",
         )
-    target = opts["target"]
-    if target is not None:
-        if target not in top.members:
-            return {"doc": None, "members": {}, "missing": True}
-        top = top.members[target]
-    if top.is_alias or top.kind.value != "module":
-        return {"doc": None, "members": {}, "missing": True}
-    obs = gp.observe(top, skip=(gp.OTHER, "m", "s") if target is None else ())
-    obs["file"] = None if top._filepath is None or isinstance(top._filepath, list) else Path(top._filepath).suffix
-    return obs
+    return _observe(top, opts["target"], opts.get("deep", False))
 
 
 def merge_directly(pair: dict, root: Path, who_first: str) -> dict:
@@ -195,15 +221,9 @@ def load_in_two_steps(paths: list[Path], opts: dict) -> dict:
     loader.finder.append_search_path(runtime_sp)
     call("total", loader.load, TOP, try_relative_path=False, what="second load (regular package now visible)")
     top = loader.modules_collection.members[TOP]
-    target = opts["target"]
-    if top.is_alias or target not in top.members:
-        return {"doc": None, "members": {}, "missing": True}
-    top = top.members[target]
-    if top.is_alias or top.kind.value != "module":
-        return {"doc": None, "members": {}, "missing": True}
-    obs = gp.observe(top)
-    obs["file"] = _suffix(top)
-    return obs
+    if top.is_alias:
+        return dict(MISSING)
+    return _observe(top, opts["target"], True)
 
 
 def check_case(case) -> list[Fail]:
@@ -218,7 +238,18 @@ def check_case(case) -> list[Fail]:
     fails: list[Fail] = []
     seen: set = set()
 
-    def judge(obs: dict, how: str) -> None:
+    def judge(obs: dict, how: str, nested: str = "") -> None:
+        if obs.get("deep") is not None:
+            judge(obs["deep"], how + ", nested pair p.sub.deep", nested="nested:")
+        if nested:
+            before = len(fails)
+            _judge(obs, how)
+            for f in fails[before:]:
+                f.kind = nested + f.kind
+        else:
+            _judge(obs, how)
+
+    def _judge(obs: dict, how: str) -> None:
         if obs.get("missing"):
             fails.append(Fail("keeps-runtime", "module-missing", f"[{placement}, {how}] the merged module is not in the loaded tree"))
             return
@@ -329,7 +360,7 @@ def _known_internal_alias(case, fail) -> bool:
     """A runtime alias to an object of the package itself whose name the stubs define as a non-alias member: the
     merger dereferences the alias (to merge into its target), which resolves it when the target module happens to be
     loaded already. Attributed only to `alias-resolved` failures on exactly such a member."""
-    if fail.bucket not in ("no-alias-resolved/alias-resolved", "order-independent/alias-resolved"):
+    if fail.bucket not in ("no-alias-resolved/alias-resolved", "no-alias-resolved/nested:alias-resolved", "order-independent/alias-resolved"):
         return False
     hits = {".".join(p) for p in gp.internal_alias_collisions(case["pair"])}
     if not hits:
